@@ -804,8 +804,16 @@ class Gen:
                     e = self.int_expr(scope, self.pick([1, 2, f["expr_depth"]]))
                 else:
                     e = self.text_expr(scope, 2)
-                if f["window"] and self.chance(0.15) and not as_source:
+                if f["window"] and self.chance(0.15) and (not as_source or f.get("derived_window")):
                     e, ty = self.window_expr(scope), INT
+                    w = self.rng.random()
+                    if w < 0.25:
+                        # a window buried inside another expression (guards that look only at the top node miss it)
+                        e = ("bin", self.pick(["+", "-", "*"]), e, ("lit", self.pick([0, 1, 2]), INT))
+                    elif w < 0.4:
+                        e = ("fn", "COALESCE", [e, ("lit", 0, INT)], INT)
+                    elif w < 0.5:
+                        e = ("case", [(("bin", ">", e, ("lit", 1, INT)), ("lit", 1, INT))], ("lit", 0, INT), INT)
                 if f["subq"] and depth > 0 and self.chance(0.06):
                     sq = self.scalar_subquery(scope)
                     if sq is not None:
